@@ -166,7 +166,7 @@ def session_spec(draw, max_datasets=3, datetime=True, joins=True, links=True):
     jns = []
     if joins and nd >= 2:
         one_d = [i for i, d in enumerate(datasets) if len(d["shape"]) == 1]
-        if len(one_d) >= 2 and draw(st.booleans()):
+        if len(one_d) >= 2 and draw(st.integers(0, 3)) > 0:
             a, b = one_d[0], one_d[1]
             jns.append({"a": a, "b": b, "ca": [0], "cb": [0]})
     groups = []
@@ -292,7 +292,12 @@ def observe(dc, fields=None):
             jn = []
             for other, (c1, c2) in d._key_joins.items():
                 if id(other) in index:
-                    jn.append((index[id(other)], [c.label for c in c1], [c.label for c in c2]))
+                    c1 = c1 if isinstance(c1, (tuple, list)) else ("NOT-A-TUPLE", c1)
+                    c2 = c2 if isinstance(c2, (tuple, list)) else ("NOT-A-TUPLE", c2)
+                    def who(c):
+                        # (index of the dataset that owns the attribute, label): the two sides of a join must not be swapped
+                        return (index.get(id(getattr(c, "parent", None)), "?"), getattr(c, "label", c))
+                    jn.append((index[id(other)], [who(c) for c in c1], [who(c) for c in c2]))
             rec["joins"] = sorted(jn, key=repr)
         out["datasets"].append(rec)
     groups = list(dc.subset_groups)
